@@ -501,6 +501,7 @@ def run(ck, m):
 
 
 MUTANTS = [
+    M("resize-guard-original-size", CM, "BaseImage._get_render_data", "            if img.size != size:\n", "            if size != self._original_size:\n", {"R4"}),
     M("seek-shortcut", CM, "BaseImage._get_render_data", "        if self._is_animated:\n            img.seek(self._seek_position)\n", "        if self._is_animated and (frame or self._seek_position):\n            img.seek(self._seek_position)\n", {"R4"}),
     M("memo-canvas", CM, "BaseImage._get_render_data", "                bg = Image.new(\"RGBA\", img.size, alpha)\n",
       "                @lru_cache(maxsize=8)\n                def _bg_canvas(size_, color_):\n                    return Image.new(\"RGBA\", size_, color_)\n\n                bg = _bg_canvas(img.size, alpha)\n", {"MEMO"}),
